@@ -964,4 +964,46 @@ theorem edit_amount_counterexample :
       have := hs 1 b hg
       omega
 
+
+/-! ## the EndBlocker's pruning of the limit histories -/
+
+/-- dropping entries that a period sum does not count leaves the sum unchanged -/
+theorem periodSum_filter (id now' period : Nat) (p : (Nat × Nat) × Int → Bool) (h : List ((Nat × Nat) × Int))
+    (hp : ∀ e ∈ h, (e.1.1 = id ∧ now' ≤ e.1.2 + period) → p e = true) :
+    periodSum id now' period (h.filter p) = periodSum id now' period h := by
+  induction h with
+  | nil => rfl
+  | cons e r ih =>
+    have ih' := ih (fun x hx => hp x (List.mem_cons_of_mem _ hx))
+    by_cases hpe : p e = true
+    · rw [List.filter_cons_of_pos hpe]
+      show (if _ then _ else _) + periodSum id now' period (List.filter p r) = (if _ then _ else _) + periodSum id now' period r
+      rw [ih']
+    · rw [List.filter_cons_of_neg hpe]
+      have hc : ¬ (e.1.1 = id ∧ now' ≤ e.1.2 + period) := fun hh => hpe (hp e (List.mem_cons_self ..) hh)
+      show periodSum id now' period (List.filter p r) = (if e.1.1 = id ∧ now' ≤ e.1.2 + period then e.2 else 0) + periodSum id now' period r
+      rw [ih', if_neg hc]; omega
+
+/-- **pruning is invisible to the per-period limits**: for the basket the history entry belongs to, and for every
+later block time, the period sum over the pruned history equals the one over the full history — as long as the
+basket keeps its limits period. (The EndBlocker prunes each basket's OWN prefix only: an implementation that prunes
+under another basket's bounds breaks this on the code side and shows in the correspondence.) -/
+theorem periodSum_pruneH (bs : List Basket) (b : Basket) (now now' : Nat) (h : AMap (Nat × Nat))
+    (hb : bs.find? (fun x => x.id == b.id) = some b) (hle : now ≤ now') :
+    periodSum b.id now' b.limitsPeriod (pruneH bs now h) = periodSum b.id now' b.limitsPeriod h := by
+  unfold pruneH
+  apply periodSum_filter
+  intro e _ hc
+  have hf : bs.find? (fun x => x.id == e.1.1) = some b := by rw [hc.1]; exact hb
+  simp only [hf]
+  have : now ≤ e.1.2 + b.limitsPeriod := by omega
+  simp [this]
+
+example : periodSum 1 100 60 (pruneH [{ wCfg with id := 1, limitsPeriod := 60 }] 90 [((1, 10), 5), ((1, 50), 7), ((2, 10), 9)])
+    = 7 := by decide
+
+/-- pruning touches neither the baskets nor the bank: supply, reserves and recorded amounts are unchanged -/
+theorem endBlock_frame (s : St) : (endBlock s).baskets = s.baskets ∧ (endBlock s).bank = s.bank ∧ (endBlock s).now = s.now :=
+  ⟨rfl, rfl, rfl⟩
+
 end Sekai.Props.C11
